@@ -279,7 +279,10 @@ func (f *FibStrategyHashTable) FindStrategyEnc(name enc.Name) enc.Name {
 func (f *FibStrategyHashTable) InsertNextHopEnc(name enc.Name, nexthop uint64, cost uint64) {
 	f.fibStrategyRWMutex.Lock()
 	defer f.fibStrategyRWMutex.Unlock()
+	f.insertNextHopLocked(name, nexthop, cost)
+}
 
+func (f *FibStrategyHashTable) insertNextHopLocked(name enc.Name, nexthop uint64, cost uint64) {
 	realEntry := f.insertEntryEnc(name)
 
 	for _, existingNextHop := range realEntry.nexthops {
@@ -302,7 +305,20 @@ func (f *FibStrategyHashTable) InsertNextHopEnc(name enc.Name, nexthop uint64, c
 func (f *FibStrategyHashTable) ClearNextHopsEnc(name enc.Name) {
 	f.fibStrategyRWMutex.Lock()
 	defer f.fibStrategyRWMutex.Unlock()
+	f.clearNextHopsLocked(name)
+}
 
+// ReplaceNextHopsEnc replaces the nexthops of the specified prefix under one write lock.
+func (f *FibStrategyHashTable) ReplaceNextHopsEnc(name enc.Name, nexthops []FibNextHopEntry) {
+	f.fibStrategyRWMutex.Lock()
+	defer f.fibStrategyRWMutex.Unlock()
+	f.clearNextHopsLocked(name)
+	for _, nh := range nexthops {
+		f.insertNextHopLocked(name, nh.Nexthop, nh.Cost)
+	}
+}
+
+func (f *FibStrategyHashTable) clearNextHopsLocked(name enc.Name) {
 	entry, ok := f.realTable[name.Hash()]
 	if ok {
 		entry.nexthops = make([]*FibNextHopEntry, 0)
